@@ -82,6 +82,9 @@ func Claims(tag string) bool {
 	return true
 }
 
+// ClaimT is the claim flag of a tag as a tree.
+func ClaimT(tag string) sx.T { return claimT(tag) }
+
 func claimT(tag string) sx.T {
 	if Claims(tag) {
 		return sx.I(1)
